@@ -11,7 +11,7 @@ import (
 
 func init() {
 	registerProperty(&Property{
-		ID: "C07",
+		ID:          "C07",
 		Explanation: "Decides structural necessary conditions of the row-stream codec: (R1) the encoder's and the decoder's sequences of gob operations agree in operand type, loop structure and codec predicate (length int; per column flag bool then codec|gob value; checksum uint32), and a flag without a local codec is an error; (R2) the CRC is reset at the start of each batch on both sides, is the object the byte stream is teed into, the encoder's sum is the last thing encoded, the decoder takes its sum after the last column and before decoding the stored sum, compares them and only the equal branch reaches the nil return; (R3) the destination is zeroed before any gob/codec decode; (R4) every decode error is stored in the sticky field and returned with zero rows, the sticky error is tested first, and decode never manufactures the end-of-stream sentinel (a stream cut inside a batch must be an error); (R5) a batch larger than the destination is buffered and the buffer is drained before the next batch is decoded. Not decided: gob's bit-level fidelity, custom codecs' correctness, which damage CRC-32 detects.",
 		Rules: []Rule{
 			{ID: "C07-R1", Doc: "writer/reader wire agreement", Run: c07r1},
@@ -851,4 +851,3 @@ func c07r6(c *RC) {
 	c.Check(negChecked, rq+"|batch-length-validated", pr.Pos(lenDecode.Pos()),
 		"the decoded batch length sizes a frame without having been tested for < 0: a damaged length makes the reader panic in frame.Slice/Make instead of failing with an error", negTrail...)
 }
-
